@@ -49,6 +49,9 @@ Families == {
   F("css", "selparen", "", "a:not(", "b", ")", "{c:d}"), F("css", "selbracket", "a", "[", "b", "]", "{c:d}"), F("css", "declbrace", "a{b:", "{", "c", "}", "}"),
   F("css", "inlineparen", "b:", "(", "c", ")", ""), F("css", "atbrace", "@x ", "{", "", "}", ""),
   F("css", "rulesetsibling", "", "a{b:c;", "d:e", "}", ""), F("css", "parensibling", "a{b:", "((c) ", "d", ")", "}"),
+  \* (custom properties have their own value loop: every bracket kind inside one, in a ruleset and inline)
+  F("css", "customparen", "a{--x:", "(", "c", ")", "}"), F("css", "custombracket", "a{--x:", "[", "c", "]", "}"),
+  F("css", "custombrace", "--x:", "{", "b:c", "}", ""), F("css", "customfunc", ":root{--x:", "var(", "--y", ")", "}"),
   \* ---- JSON
   F("json", "arraysibling", "", "[[1],", "2", "]", ""), F("json", "objectsibling", "", "{\"a\":[],\"b\":", "1", "}", ""),
   F("json", "array", "", "[", "1", "]", ""), F("json", "object", "", "{\"a\":", "1", "}", ""), F("json", "mixed", "", "[{\"a\":", "1", "}]", ""),
